@@ -1,4 +1,6 @@
 import SockModel.Model.AddrLemmas
+import SockModel.Generated.Funcs
+import SockModel.Basic.TieTactic
 /-!
 # C13  Address ==, <, hash are lawful and provenance-independent; endpoints agree
 
@@ -349,3 +351,77 @@ example : lt (encode4 [255, 0, 0, 1] 80) (encode4 [127, 0, 0, 1] 80) = false := 
 example : (encode6 (List.replicate 15 0 ++ [1]) 8080 0 4).length = 28 := by decide
 
 end SockModel.Addr
+
+/-! ## Source-derived tie (DESIGN.md §0.7)
+
+`SockModel.Gen.*` (Generated/Funcs.lean) is regenerated on every run by tools/cxx2lean.py from the clang AST of
+the CURRENT /repo/src: SockAddrView::operator< and operator== (address_impl.cpp), memcmp abstracted by its sign.
+Each theorem below states that the generated function and the hand-written model function agree for ALL
+arguments; a change of the C++ function changes the generated definition and the theorem stops checking. -/
+namespace SockModel.Props.C13
+open SockModel SockModel.Addr
+
+/-- what `std::memcmp(a, b, n)` may return for two `n`-byte buffers: any `int` with the sign of the
+unsigned lexicographic comparison -/
+def MemcmpResult (a b : Image) (cmp : Int) : Prop :=
+  (cmp < 0 ↔ ltBytes a b = true) ∧ (cmp = 0 ↔ eqBytes a b = true)
+
+/-- the model's `lt`, as arithmetic on the two lengths and the `memcmp` result -/
+theorem model_lt_arith (a b : Image) (cmp : Int) (h : MemcmpResult a b cmp) :
+    Addr.lt a b = decide ((a.length : Int) < b.length ∨ ((a.length : Int) = b.length ∧ cmp < 0)) := by
+  obtain ⟨h0, _⟩ := h
+  unfold Addr.lt
+  cases he : ltBytes a b <;> simp [he] at h0 <;>
+    by_cases h1 : a.length < b.length <;> by_cases h2 : b.length < a.length <;> simp [h1, h2] <;> omega
+
+/-- the model's `eq`, as arithmetic on the two lengths and the `memcmp` result -/
+theorem model_eq_arith (a b : Image) (cmp : Int) (h : MemcmpResult a b cmp) :
+    Addr.eq a b = decide ((a.length : Int) = b.length ∧ cmp = 0) := by
+  obtain ⟨_, h0⟩ := h
+  unfold Addr.eq
+  by_cases h1 : a.length = b.length
+  · cases he : eqBytes a b <;> simp [he] at h0 <;> simp [h1, h0]
+  · have hb : (a.length == b.length) = false := by simp [h1]
+    have hd : decide ((a.length : Int) = b.length) = false := by simp; omega
+    simp [hb, hd]
+
+/-- `SockAddrView::operator<` as compiled from the current source = the model's `lt`, for every `memcmp`
+result that has the sign of the byte comparison -/
+theorem tie_lt (a b : Image) (cmp : Int) (h : MemcmpResult a b cmp) :
+    Gen.SockAddrView_lt a.length b.length cmp = Addr.lt a b := by
+  rw [model_lt_arith a b cmp h]
+  simp only [Gen.SockAddrView_lt]
+  tie_bool_arith
+
+/-- `SockAddrView::operator==` likewise -/
+theorem tie_eq (a b : Image) (cmp : Int) (h : MemcmpResult a b cmp) :
+    Gen.SockAddrView_eq a.length b.length cmp = Addr.eq a b := by
+  rw [model_eq_arith a b cmp h]
+  simp only [Gen.SockAddrView_eq]
+  tie_bool_arith
+
+theorem ltBytes_not_eqBytes : ∀ (a b : List UInt8), ltBytes a b = true → eqBytes a b = false
+  | [], _, h => by simp [ltBytes] at h
+  | _ :: _, [], h => by simp [ltBytes] at h
+  | x :: xs, y :: ys, h => by
+    unfold ltBytes at h
+    unfold eqBytes
+    by_cases h1 : x < y
+    · have hne : x ≠ y := fun he => by subst he; exact UInt8.lt_irrefl _ h1
+      simp [hne]
+    · by_cases h2 : y < x
+      · simp [h1, h2] at h
+      · simp only [h1, h2, if_false] at h
+        simp [ltBytes_not_eqBytes xs ys h]
+
+theorem memcmpResult_exists (a b : Image) : ∃ cmp, MemcmpResult a b cmp := by
+  unfold MemcmpResult
+  cases hl : ltBytes a b with
+  | true =>
+    have := ltBytes_not_eqBytes a b hl
+    exact ⟨-1, by simp, by simp [this]⟩
+  | false =>
+    cases he : eqBytes a b with
+    | true => exact ⟨0, by simp, by simp⟩
+    | false => exact ⟨1, by simp, by simp⟩
+end SockModel.Props.C13
